@@ -39,47 +39,62 @@ theorem handleMessage_never_panics (acl : Acl) (m : Decoded) : handleMessage acl
 
 /-! ## what is handed to the replicator -/
 
+/-- a head is handed to the replicator iff it is complete and the access controller admits it -/
+def RawHead.loadable (acl : Acl) (h : RawHead) : Bool := h.complete && acl.canAppend h.entry
+
 /-- what a successful pre-check hands over is exactly: the accumulator so far, then the entries
-of the complete heads, in message order -/
+of the complete, admitted heads, in message order -/
 theorem syncHeads_load_eq (acl : Acl) (hs : List RawHead) (acc es : List Entry)
     (h : syncHeads acl hs acc = .load es) :
-    es = acc.reverse ++ (hs.filter RawHead.complete).map RawHead.entry := by
+    es = acc.reverse ++ (hs.filter (RawHead.loadable acl)).map RawHead.entry := by
   induction hs generalizing acc with
   | nil => simp only [syncHeads] at h; injection h with h; simp [h]
   | cons x hs ih =>
     unfold syncHeads at h
     by_cases hc : x.complete
-    · have step : es = (x.entry :: acc).reverse ++ (hs.filter RawHead.complete).map RawHead.entry := by
-        simp only [hc, Bool.not_true, Bool.false_eq_true, if_false] at h
+    · simp only [hc, Bool.not_true, Bool.false_eq_true, if_false] at h
+      by_cases ha : acl.canAppend x.entry
+      · simp only [ha, Bool.not_true, Bool.false_eq_true, if_false] at h
         split at h
-        · exact ih _ h
-        · split at h
-          · cases h
-          · exact ih _ h
-      simp [step, hc]
+        · cases h
+        · have step := ih _ h
+          simp [step, RawHead.loadable, hc, ha]
+      · simp only [ha, Bool.not_false, if_true] at h
+        simp [ih _ h, RawHead.loadable, hc, ha]
     · simp only [hc, Bool.not_false, if_true] at h
-      simp [ih _ h, hc]
+      simp [ih _ h, RawHead.loadable, hc]
 
 /-- **C2.** (equality form) starting from nothing, the heads loaded are exactly the entries of the
-complete heads of the message, in order; null heads and heads missing identity / clock / hash are
-never handed over -/
-theorem syncHeads_loads_exactly_complete (acl : Acl) (hs : List RawHead) (es : List Entry)
+complete heads of the message that the access controller admits, in order; null heads, heads missing
+identity / clock / hash and refused heads are never handed over -/
+theorem syncHeads_loads_exactly_loadable (acl : Acl) (hs : List RawHead) (es : List Entry)
     (h : syncHeads acl hs [] = .load es) :
-    es = (hs.filter RawHead.complete).map RawHead.entry := by
+    es = (hs.filter (RawHead.loadable acl)).map RawHead.entry := by
   simpa using syncHeads_load_eq acl hs [] es h
 
 /-- **C2.** -/
 theorem syncHeads_loads_only_complete (acl : Acl) (hs : List RawHead) (es : List Entry)
     (h : syncHeads acl hs [] = .load es) :
     es.Sublist ((hs.filter RawHead.complete).map RawHead.entry) ∧
-    ∀ e ∈ es, ∃ r ∈ hs, r.complete = true ∧ r.entry = e := by
-  have heq := syncHeads_loads_exactly_complete acl hs es h
+    ∀ e ∈ es, ∃ r ∈ hs, r.complete = true ∧ acl.canAppend r.entry = true ∧ r.entry = e := by
+  have heq := syncHeads_loads_exactly_loadable acl hs es h
   subst heq
-  refine ⟨List.Sublist.refl _, ?_⟩
-  intro e he
-  simp only [List.mem_map, List.mem_filter] at he
-  obtain ⟨r, ⟨hr, hc⟩, rfl⟩ := he
-  exact ⟨r, hr, hc, rfl⟩
+  refine ⟨?_, ?_⟩
+  · have hf : hs.filter (RawHead.loadable acl) =
+        (hs.filter RawHead.complete).filter (fun r => acl.canAppend r.entry) := by
+      rw [List.filter_filter]; congr 1; funext r; simp [RawHead.loadable, Bool.and_comm]
+    rw [hf]
+    exact List.filter_sublist.map _
+  · intro e he
+    simp only [List.mem_map, List.mem_filter, RawHead.loadable, Bool.and_eq_true] at he
+    obtain ⟨r, ⟨hr, hc, ha⟩, rfl⟩ := he
+    exact ⟨r, hr, hc, ha, rfl⟩
+
+/-- Refutation witness for the tree before the last repair (finding F18): a complete head that the
+access controller refuses was still handed to the replicator -/
+theorem refused_head_was_loaded (e : Entry) :
+    syncHeadsLoadsRefused {} [{ entry := e }] [] = .load [e] ∧ syncHeads {} [{ entry := e }] [] = .load [] := by
+  constructor <;> simp [syncHeadsLoadsRefused, syncHeads, RawHead.complete, Acl.canAppend]
 
 /-- **C3.** (any accumulator) -/
 theorem syncHeads_hash_acc (acl : Acl) (hs : List RawHead) (acc es : List Entry)
@@ -140,12 +155,12 @@ theorem syncPinned_noclock_panics (acl : Acl) (e : Entry) (hca : acl.canAppendPi
     syncPinned acl [{ hasClock := false, entry := e }] [] = .panic := by
   simp [syncPinned, hca]
 
-/-- on messages whose heads are all complete, the pinned and the repaired `Sync` differ only
-through the access-controller check -/
+/-- on messages whose heads are all complete, the pinned `Sync` and the one after its first repair
+differ only through the access-controller check -/
 theorem syncPinned_agrees_on_complete (acl : Acl) (hs : List RawHead) (acc : List Entry)
     (hc : ∀ r ∈ hs, r.complete = true)
     (hca : ∀ r ∈ hs, acl.canAppendPinned r.entry = acl.canAppend r.entry) :
-    syncPinned acl hs acc = syncHeads acl hs acc := by
+    syncPinned acl hs acc = syncHeadsLoadsRefused acl hs acc := by
   induction hs generalizing acc with
   | nil => rfl
   | cons x hs ih =>
@@ -156,7 +171,7 @@ theorem syncPinned_agrees_on_complete (acl : Acl) (hs : List RawHead) (acc : Lis
     unfold RawHead.complete at hx
     simp only [Bool.and_eq_true, Bool.not_eq_true'] at hx
     obtain ⟨⟨⟨h1, h2⟩, h3⟩, h4⟩ := hx
-    unfold syncPinned syncHeads
+    unfold syncPinned syncHeadsLoadsRefused
     simp only [RawHead.complete, h1, h2, h3, h4, hax, ih', Bool.not_true, Bool.not_false,
       Bool.and_self, Bool.or_false, Bool.false_eq_true, if_false]
 
